@@ -1128,6 +1128,16 @@ class LogMap(SymObj):
     def py_getattr(self, I, name):
         if name == "clear":
             return Builtin("clear", lambda I: (self.d.clear(), self.log.append((self.name, "clear")))[1])
+        if name == "get":
+            return Builtin("get", lambda I, key, default=None: self.d.get(key, default))
+        if name == "setdefault":
+
+            def setdefault(I, key, default=None):
+                if key not in self.d:
+                    self.py_setitem(I, key, default)
+                return self.d[key]
+
+            return Builtin("setdefault", setdefault)
         raise OutOfSubset(f"{self.name}.{name}")
 
 
